@@ -38,6 +38,7 @@ pub fn families() -> Vec<&'static dyn Family> {
         &nsim::frames::HOSTILE_FRAMES,
         &nsim::shutdown::SHUTDOWN_LIVE,
         &nsim::multitopic::MULTI_TOPIC,
+        &nsim::peerloss::PEER_LOSS,
     ]
 }
 
@@ -161,6 +162,7 @@ pub fn plan(property: &str) -> Option<CheckPlan> {
                 PlanItem { family: &rsim::enumfail::RR_FAIL_ENUM, quick: 15_000, thorough: 600_000 },
                 PlanItem { family: &rsim::pubsub::PS_FAIL_RANDOM, quick: 60_000, thorough: 2_400_000 },
                 PlanItem { family: &rsim::reqrep::RR_FAIL_RANDOM, quick: 60_000, thorough: 2_400_000 },
+                PlanItem { family: &nsim::peerloss::PEER_LOSS, quick: 200, thorough: 8_000 },
             ],
         }),
         "C11" => Some(CheckPlan {
